@@ -488,7 +488,11 @@ class Ctx:
               "level": level, "coverage": cov,
               "assumptions": self.assumptions, "wall_s": round(wall, 2),
               "violations": nviol}
-        json.dump(ev, open(os.path.join(VERIF, "evidence", f"{self.pid}.json"), "w"),
+        # VERIF_EVIDENCE_DIR: used by tools/seed_eval.py so that runs against a deliberately
+        # broken tree never overwrite the evidence of the real tree
+        evdir = os.environ.get("VERIF_EVIDENCE_DIR") or os.path.join(VERIF, "evidence")
+        os.makedirs(evdir, exist_ok=True)
+        json.dump(ev, open(os.path.join(evdir, f"{self.pid}.json"), "w"),
                   indent=1, default=str)
         for l in lines:
             print(l)
